@@ -84,6 +84,7 @@ type Sim struct {
 	counts  map[string]int
 	log     []Event
 	seq     int
+	bodies  int // response bodies handed out and not yet closed
 	open    int // RoundTrips entered and not exited
 	barrier *Barrier
 	// OnRequest, if set, is called (outside the lock) for every request after it
@@ -132,6 +133,29 @@ func (s *Sim) Log() []Event {
 	s.mu.Lock()
 	defer s.mu.Unlock()
 	return append([]Event(nil), s.log...)
+}
+
+// trackedBody notes when the receiver closes a response body.
+type trackedBody struct {
+	io.ReadCloser
+	s    *Sim
+	once sync.Once
+}
+
+func (b *trackedBody) Close() error {
+	b.once.Do(func() {
+		b.s.mu.Lock()
+		b.s.bodies--
+		b.s.mu.Unlock()
+	})
+	return b.ReadCloser.Close()
+}
+
+// OpenBodies returns the number of response bodies handed out and not closed.
+func (s *Sim) OpenBodies() int {
+	s.mu.Lock()
+	defer s.mu.Unlock()
+	return s.bodies
 }
 
 // Open returns the number of RoundTrips that entered and have not exited.
@@ -283,6 +307,10 @@ func (s *Sim) RoundTrip(hr *http.Request) (resp *http.Response, err error) {
 	default:
 		rc = io.NopCloser(bytes.NewReader(rep.Body))
 	}
+	s.mu.Lock()
+	s.bodies++
+	s.mu.Unlock()
+	rc = &trackedBody{ReadCloser: rc, s: s}
 	return &http.Response{
 		StatusCode: st, Status: fmt.Sprintf("%d %s", st, http.StatusText(st)),
 		Proto: "HTTP/1.1", ProtoMajor: 1, ProtoMinor: 1,
